@@ -96,6 +96,15 @@ CHECKS = {
         "exactly, names parse back to (function, condition, points); repeated after a second solve of the same object.",
    note="trusted: pv/ref/conditions.py names/pairs, pv/canon.py",
    tech="reference-model monitor over the dual-table accessor and constraint names after real solves"),
+ "C03": dict(cat="exploration", ref="DESIGN 3/C03, 2.5",
+   text="For all 24 classes, random admissible parameters incl. boundary regimes and real members (41 class/family kinds, each "
+        "self-tested on its class's defining property), concrete samples are registered through the real API in random order "
+        "(leaf and combination points, repeated subgradient selections, stationary/fixed points, proximal steps, transposes, "
+        "block decompositions), every leaf is bound to its concrete value and every generated scalar constraint / LMI is evaluated "
+        "by the independent evaluator; 1e5 constraint evaluations per quick run.",
+   note="trusted: pv/ref/members.py (self-tested members), pv/canon.py; members come from constructive families (exotic members "
+        "are out of reach; C04's reference comparison is the complementary guard)",
+   tech="runtime evaluation of generated constraint lists on concrete executions of real class members (conservation-style oracle)"),
 }
 NOT_YET = {}
 
